@@ -92,12 +92,12 @@ def _native_transition(state, ttype, value):
     sp = StatementSplitter()
     for k, v in state.items():
         if hasattr(sp, k):
-            setattr(sp, k, v)
+            setattr(sp, k, list(v) if isinstance(v, list) else v)
     try:
         r = sp._change_splitlevel(ttype, value)
     except Exception as e:      # noqa
         r = 'raised %s' % type(e).__name__
-    return (r,) + tuple(getattr(sp, k, None) for k in ('_in_declare', '_in_case', '_is_create', '_begin_depth', 'level'))
+    return (r,) + tuple(getattr(sp, k, None) for k in ('_in_declare', '_case_levels', '_is_create', '_begin_depth', 'level'))
 
 
 def replay_spelling(rep):
@@ -107,7 +107,7 @@ def replay_spelling(rep):
     import_repo()
     from sqlparse import tokens as T
     states = [{}, {'_is_create': True}, {'_is_create': True, '_begin_depth': 1}, {'_is_create': True, '_in_declare': True},
-              {'_is_create': True, '_begin_depth': 1, '_in_case': 1}]
+              {'_is_create': True, '_begin_depth': 1, '_case_levels': [1], 'level': 2}]
     for ob in rep.obls:
         if ob.status != FAILED or '[keyword spelling]' not in ob.id:
             continue
@@ -121,7 +121,7 @@ def replay_spelling(rep):
                         a, b = _native_transition(st, tt, w), _native_transition(st, tt, alt)
                         if a != b:
                             found = {'input': ('spelling', w, alt, sorted(st.items()), str(tt)), 'failure':
-                                     '_change_splitlevel(%s, %r) -> %r but with %r -> %r (result, _in_declare, _in_case, '
+                                     '_change_splitlevel(%s, %r) -> %r but with %r -> %r (result, _in_declare, _case_levels, '
                                      '_is_create, _begin_depth, level) from state %r' % (tt, w, a, alt, b, st),
                                      'reproduced': True}
                             break
